@@ -142,7 +142,7 @@ def degenerate_cases(draw, tier, op):
     return case
 
 
-SCALE_FAMS = ['eigh', 'qr', 'lu', 'inv', 'solve', 'chol', 'svd', 'dot', 'outer', 'trace', 'det']
+SCALE_FAMS = ['eigh', 'qr', 'lu', 'inv', 'solve', 'svd', 'dot', 'outer', 'trace', 'det']      # (not chol: a a^T + c I is not scale tolerant)
 
 
 @st.composite
